@@ -210,7 +210,12 @@ def run(ctx):
     ctx.rule('C10.FILL', lambda: rule_fill(ctx, fr, ctx.func('sess', 'SessionManager.limited_history'), 'self._history_cache', 'C10.FILL')
              + rule_fill(ctx, fr, ctx.func('sess', 'SessionManager.tx_hashes_at_blockheight'), 'self._tx_hashes_cache', 'C10.FILL'), 2)
     ctx.rule('C10.SIGNAL', lambda: rule_signal(ctx), 5)
+    from . import c03 as _c03
+    ctx.rule('C10.MEMO', lambda: _c03.rule_memo(ctx, 'C10.MEMO'), 12)
     ctx.rule('C10.BYHEIGHT', lambda: rule_byheight(ctx), 2)
+    from . import c12 as _c12, c08 as _c08
+    ctx.rule('C10.OWNCOPY', lambda: _c12.rule_own_copy(ctx, 'C10.OWNCOPY'), 1)
+    ctx.rule('C10.LIVEFLAG', lambda: _c08.rule_liveflag(ctx), 2)
     # id-from-position with merkle=True answers from the by-height caches: their fills must be fresh too
     from . import c11
     ctx.rule('C10.CACHES', lambda: c11.rule_cachefill(ctx, 'C10.CACHES'), 4)
